@@ -247,8 +247,11 @@ def programs(draw, *, removal_heavy=False, max_threads=2):
         seq = []
         nxt = 0
         for _ in range(n):
-            if seq and draw(st.integers(0, 4)) == 0:
-                seq.append(seq[-1])  # deliberate adjacent duplicate
+            r = draw(st.integers(0, 9))
+            if seq and r < 2:
+                seq.append(seq[-1])  # deliberate adjacent duplicate (may be coalesced)
+            elif len(seq) >= 2 and r == 2:
+                seq.append(seq[-2])  # equal to the one before the previous: must NOT be coalesced
             else:
                 seq.append(nxt)
                 nxt += 1
